@@ -18,8 +18,23 @@ Definition w_lrv (e : bytes * bytes) : bytes :=
 Definition w_map_entry (e : bytes * bytes) : bytes :=
   if bytes_eqb (fst e) nil_iri then string_bytes false (fst e) ++ [x3a] ++ w_lrv e else w_lrv e.
 
-(* NaturalLanguageValues.MarshalJSON *)
-Definition w_nlv (l : list (bytes * bytes)) : bytes :=
+(* the entries of a language map that are written: tag and text non-empty, and of several entries whose tags
+   read back alike (tagAsRead = [sanitize]) only the first, which is the one Get returns; [seen] = the tags
+   written so far *)
+Fixpoint nlv_kept (seen : list bytes) (l : list (bytes * bytes)) : list (bytes * bytes) :=
+  match l with
+  | [] => []
+  | e :: r =>
+      match fst e, snd e with
+      | [], _ | _, [] => nlv_kept seen r
+      | _, _ =>
+          let k := sanitize (fst e) in
+          if existsb (bytes_eqb k) seen then nlv_kept seen r else e :: nlv_kept (k :: seen) r
+      end
+  end.
+
+(* NaturalLanguageValues.MarshalJSON, generic in which entries of a map are written *)
+Definition w_nlv_gen (kept : list (bytes * bytes) -> list (bytes * bytes)) (l : list (bytes * bytes)) : bytes :=
   match l with
   | [] => []
   | _ =>
@@ -31,25 +46,37 @@ Definition w_nlv (l : list (bytes * bytes)) : bytes :=
       match single with
       | Some b => b
       | None =>
-          (* of several values whose tags are written alike the first is kept (fix 05721dc); entries with an empty
-             tag or text are skipped before their key is registered *)
-          let kept := (fix go (l : list (bytes * bytes)) (keys : list bytes) : list (bytes * bytes) :=
-                         match l with
-                         | [] => []
-                         | e :: r =>
-                             match fst e, snd e with
-                             | [], _ | _, [] => go r keys
-                             | _, _ => let k := string_bytes false (fst e) in
-                                       if existsb (bytes_eqb k) keys then go r keys else e :: go r (k :: keys)
-                             end
-                         end) l [] in
-          let parts := flat_map (fun e => match w_map_entry e with [] => [] | b => [b] end) kept in
+          let parts := flat_map (fun e => match w_map_entry e with [] => [] | b => [b] end) (kept l) in
           match parts with
           | [] => []
           | _ => x7b :: join_with comma parts ++ [x7d]
           end
       end
   end.
+
+(* NaturalLanguageValues.MarshalJSON *)
+Definition w_nlv : list (bytes * bytes) -> bytes := w_nlv_gen (nlv_kept []).
+
+(* the pinned tree (before fix 05721dc) wrote every entry with a non-empty tag and text, also under a tag
+   already written *)
+Definition nlv_kept_pinned (l : list (bytes * bytes)) : list (bytes * bytes) :=
+  filter (fun e => match fst e, snd e with [], _ | _, [] => false | _, _ => true end) l.
+Definition w_nlv_pinned : list (bytes * bytes) -> bytes := w_nlv_gen nlv_kept_pinned.
+
+(* fix 05721dc compared the tags on the bytes stringBytes writes for them: a malformed byte (written as the
+   escape of U+FFFD) and the character U+FFFD (written as itself) still gave two members of one name *)
+Fixpoint nlv_kept_written_key (seen : list bytes) (l : list (bytes * bytes)) : list (bytes * bytes) :=
+  match l with
+  | [] => []
+  | e :: r =>
+      match fst e, snd e with
+      | [], _ | _, [] => nlv_kept_written_key seen r
+      | _, _ =>
+          let k := string_bytes false (fst e) in
+          if existsb (bytes_eqb k) seen then nlv_kept_written_key seen r else e :: nlv_kept_written_key (k :: seen) r
+      end
+  end.
+Definition w_nlv_written_key : list (bytes * bytes) -> bytes := w_nlv_gen (nlv_kept_written_key []).
 
 (* pseudo field lists of the leaf structs *)
 Definition pubkey_fields (id owner pem : bytes) : list (fid * fval) :=
